@@ -58,6 +58,7 @@ def run(tier):
     cc.dump_phase(chk, PID, "single_rejects", config("single_rejects"), ["InputModesInv"], PROPS, MINE, 1.0 if th else 0.25, 1200,
                   {"scenario": "single", "numeric": False}, keep=lambda t: '"rej"' in t, nontrivial_fn=has_reject_or_reuse)
     cc.script_phase(chk, PID, "findings", cc.load_corpus(PID), MINE)
+    cc.repo_tests_phase(chk, PID, MINE, ["tests/qubit", "tests/interferometers"] + (["tests/sdk", "tests/tomography", "tests/emulator/simulator_test.py"] if th else []))
     for prof in ("wiring", "rewrites"):
         cc.trace_phase(chk, PID, prof + "_ring", 2000 if th else 320, prof, MINE, numeric=True)
     chk.assumptions = ["TLC 1.8 + CommunityModules", "observable state = (n_modes, input_modes, heralds, U_full to 1e-9); shared Parameter objects are excepted by the property",
